@@ -50,6 +50,13 @@ def generate(rng, n, tier):
             if rng.random() < 0.5:
                 pts[1] = list(pts[0])
         out.append({'pts': pts, 'z': zs, 't': ts, 'ms': ms})
+    # a few long tracks (more than 256 fixes: beyond the small-integer cache of CPython, and long enough for an index arithmetic slip to show);
+    # they go through the oracle only (the model tie carries the full distance matrix)
+    for k in ([258, 300] if tier == 'quick' else [257, 258, 259, 300, 400, 512]):
+        pts = [[rng.randint(-50, 50) / 4.0, rng.randint(-50, 50) / 4.0] for _ in range(k)]
+        ts = sorted(rng.choice(range(100, 100 + 2 * k)) for _ in range(k))
+        ts[-1] = ts[-2] + 3                                      # distinct last instants: the one-sided speed at the end is defined
+        out.append({'pts': pts, 'z': [0.0] * k, 't': ts, 'ms': [0] * k})
     return out
 
 
@@ -93,6 +100,8 @@ def coq_case(case, obs):
     if 'exc' in obs:
         return None
     n = len(case['pts'])
+    if n > 40:
+        return None
     return '(%d%%nat, %s, %s, %s, %s)' % (n, coq_list(coq_list(q(v) for v in r) for r in obs['D']), coq_list(q(v) for v in obs['T']),
                                        coq_list(q(v) for v in obs['ac']), coq_list(optq(v) for v in obs['speed']))
 
